@@ -267,7 +267,11 @@ func H_C04_linreg(v *zzverif.T) {
 
 // H_C04_scaler. case: shape (of X); n (length of offset/scale)
 func H_C04_scaler(v *zzverif.T) {
-	v.Ring()
+	// "ieee": the result is the float32 value of (x - offset) * scale, rounded after each of the two operations -
+	// not of an algebraically equal expression (x*scale - offset*scale cancels and overflows differently)
+	if !(v.Has("ieee") && v.CBool("ieee")) {
+		v.Ring()
+	}
 	shape := v.CInts("shape")
 	n := v.CInt("n")
 	xs := zzverif.Syms[float32](v, "x", zzverif.Prod(shape))
